@@ -176,7 +176,11 @@ pub fn run_vcase(case: &VCase, c: &mut Chooser, seed_rng: Rng) -> VResult {
             },
             VAct::Advance(d) => {
                 let t = exec.now() + *d;
+                // every live task wakes at most once per elapsed period (+ slack for first polls)
+                let per_task: u64 = case.periods.iter().map(|p| *d / (*p).max(1) + 3).max().unwrap_or(3);
+                exec.0.lock().unwrap().poll_budget = Some(per_task * (case.subs.len() as u64 + 1) + 16);
                 exec.advance_to(t);
+                exec.0.lock().unwrap().poll_budget = None;
             },
             VAct::Dispose(i, e) => {
                 let now = exec.now();
